@@ -99,8 +99,8 @@ class Engine(object):
                 fn(self)
             except PathAbort:
                 pass
-            except Inconclusive as e:
-                self.inconclusive = str(e)
+            except (Inconclusive, tm.Unsupported) as e:
+                self.inconclusive = '%s: %s' % (type(e).__name__, e)
                 self._end()
                 break
             except Exception:
